@@ -168,6 +168,14 @@ def gen_module(rng, mod_name, other_modules, size):
         else:
             _body(rng, ["CONFIG"], funcs, 0, lines, 0)
     _body(rng, ["CONFIG"], funcs, 0, lines, 0)
+    if rng.random() < 0.5:
+        # a taint flow the analysis finds: a parameter that is a source in the small settings reaches sink()
+        lines.append(f"def flow_{mod_name}(alpha, beta=None):")
+        lines.append("    eta = alpha")
+        lines.append("    theta = {'k': eta}")
+        lines.append("    sink(eta)")
+        lines.append("    return theta")
+        lines.append(f"flow_{mod_name}(1)")
     src = "\n".join(lines) + "\n"
     try:
         ast.parse(src)
